@@ -2,7 +2,7 @@
    Property theorems only; the model is Bac.Net (no proofs), the proofs live in Bac.NetFacts.
    Local theorems hold for EVERY node state, adapter, and arriving frame of the model.  `Fwd` marks the copies made
    by the forwarding section of process_npdu (netservice.py:607-676), `Tx` every other frame a node emits. *)
-From Bac Require Import Base Net NetFacts NetTerm NetTerm2 NetReply NetOnce NetRoute NetArrive.
+From Bac Require Import Base Net NetFacts NetTerm NetTerm2 NetReply NetOnce NetRoute NetArrive NetLocal NetBcast.
 Open Scope N_scope.
 
 (* each router hop lowers the hop count by exactly one, and keeps payload and message type *)
@@ -165,6 +165,19 @@ Theorem C06_unicast_at_most_once : forall k w f,
 Proof. exact unicast_at_most_once. Qed.
 Print Assumptions C06_unicast_at_most_once.
 
+(* a local broadcast stays on its network, each recipient at most once — globally, on every topology in which no
+   node has two ports on one LAN: a frame without DADR (local unicast / local broadcast / last leg of a routed
+   packet or remote broadcast) that is alone in flight is gone after one step with nothing new in flight, and the
+   deliveries it caused went to pairwise different nodes attached to that LAN *)
+Theorem C06_local_frame_stays_once : forall w f,
+  queue w = [f] -> n_dadr (f_npdu f) = None -> n_msg (f_npdu f) = None ->
+  NoDup (map fst (lan_members (lans w) (f_lan f))) ->
+  exists w' osn, step w = Some w' /\ queue w' = [] /\ trace w' = osn ++ OFrame f :: trace w /\
+                 NoDup (hearers osn) /\
+                 (forall x, In x (hearers osn) -> In x (map fst (lan_members (lans w) (f_lan f)))).
+Proof. exact local_frame_dies. Qed.
+Print Assumptions C06_local_frame_stays_once.
+
 (* the mechanism that stops a packet which has gone round a cycle back to a router of its source network *)
 Theorem C06_spoof_dropped : forall n i src dst p snet sm j,
   n_sadr p = Some (snet, sm) -> find_net n (Some snet) = Some j ->
@@ -278,6 +291,19 @@ Theorem C06_tree_unicast_once_partial : forall w f tgt s dd x,
                 trace (run k w) = osn ++ trace w /\ oups osn = [OUp tgt s dd x].
 Proof. exact route_arrives_exactly_once. Qed.
 Print Assumptions C06_tree_unicast_once_partial.
+
+(* C06_tree_remote_broadcast_once, PARTIAL in the same sense: a remote broadcast alone in flight that follows a
+   consistent route of ANY length (`bcast_arrives`: as for the unicast; the routers on the way carry no application;
+   on the target LAN no node has two ports and every member is either a listening station — one adapter, an
+   application, not the sender, source network not its own — or a node without application) ends with an empty
+   queue, and the nodes that were handed the payload are exactly the listening stations of the target network,
+   each once (hs is that list, in reverse LAN order).  Missing: that a loop-free warm topology yields the route. *)
+Theorem C06_tree_remote_broadcast_once_partial : forall lns ns f hs,
+  bcast_arrives lns ns f hs ->
+  forall w, lans w = lns -> nodes w = ns -> queue w = [f] ->
+  exists k osn, queue (run k w) = [] /\ trace (run k w) = osn ++ trace w /\ hearers osn = hs.
+Proof. exact bcast_route_arrives. Qed.
+Print Assumptions C06_tree_remote_broadcast_once_partial.
 
 (* C06_reply_routable is FALSE of the code when the originator is an application on a router: router with ports
    (net 1, net 2), local adapter = net 2, broadcasts globally; the station on net 1 is shown the router's net-1
@@ -404,6 +430,37 @@ Proof.
     + discriminate.
     + vm_compute.
       eapply arr_station with (who := 6%nat); [acc | ..]; reflexivity.
+Qed.
+
+(* hypotheses of C06_local_frame_stays_once: a local broadcast on network 4 of tree4 (router R1 and two stations) *)
+Example C06_local_broadcast_example :
+  let w := submit tree4 5 ALB [16; 99; 4] in
+  exists f, queue w = [f] /\ n_dadr (f_npdu f) = None /\ n_msg (f_npdu f) = None /\
+            map fst (lan_members (lans w) (f_lan f)) = [1; 5; 6]%nat /\
+            hearers (trace (run 5 w)) = [6%nat] /\ queue (run 5 w) = [].
+Proof. eexists. vm_compute. repeat split. Qed.
+
+(* the route hypothesis of C06_tree_remote_broadcast_once_partial on tree4: remote broadcast to network 4 from the
+   station on network 1; the hearers are the two stations of network 4 *)
+Example C06_tree_remote_broadcast_route_example :
+  let w := submit tree4 2 (ARB 4) [16; 99; 2] in
+  exists f hs, queue w = [f] /\ bcast_arrives (lans w) (nodes w) f hs /\ hs = [6; 5]%nat.
+Proof.
+  eexists. eexists. split; [vm_compute; reflexivity|]. split.
+  - vm_compute.
+    eapply barr_router with (who := 0%nat) (i := 0%nat) (inet := 1) (d := 4) (j := 2%nat) (m' := [11])
+                            (lan' := 3) (mj := [10]); [acc | ..]; try reflexivity.
+    + discriminate.
+    + intros snet sm E. discriminate E.
+    + vm_compute.
+      eapply barr_last_router with (who := 1%nat) (i := 0%nat) (inet := 3) (d := 4) (j := 1%nat)
+                                   (lan' := 4) (mj := [11]); [acc | ..]; try reflexivity.
+      * discriminate.
+      * intros snet sm E. inversion E; subst. reflexivity.
+      * discriminate.
+      * vm_compute. repeat constructor; cbn; intuition discriminate.
+      * intros x Hx. vm_compute in Hx. destruct Hx as [Hx|[Hx|[Hx|[]]]]; subst x; vm_compute; auto.
+  - vm_compute. reflexivity.
 Qed.
 
 Example C06_tree_unicast_example :
